@@ -91,6 +91,8 @@
   X(MTX_UNLOCK_BEFORE_CAS, W) \
   X(MTX_UNLOCK_AFTER_DEC, W) \
   X(MTX_CLEAR_BIT, W) \
+  X(MTX_STATIC_INIT_BEFORE_CAS, W) \
+  X(MTX_STATIC_INIT_CLAIMED, W) \
   X(MTX_UNLOCK_WAKES, C) \
   X(MTX_LOCK_BLOCKS, C) \
   X(COND_WAIT_RESUMED, W) \
